@@ -365,9 +365,21 @@ class Rig:
     # ---- connections -----------------------------------------------------------------
     def connect(self, name=None, **kw):
         name = name or "c%d" % (len(self.conns) + 1)
+        if "addr" not in kw:
+            n = len(self.conns) + 1
+            kw["addr"] = "10.%d.%d.%d" % ((n >> 16) & 255, (n >> 8) & 255, n & 255)
+        if name in self.conns:
+            name = "%s~%d" % (name, len(self.conns))
         c = Conn(self, name, **kw)
         self.conns[name] = c
         return c.start()
+
+    def subs_of(self, conn):
+        """the relay's registry entry {sub_id: Subscription} of a virtual connection"""
+        for cid, subs in list(self.storage.clients.items()):
+            if str(cid).startswith(conn.addr + "-"):
+                return subs
+        return {}
 
     # ---- quiescence ------------------------------------------------------------------
     def writer_idle(self):
